@@ -944,6 +944,26 @@ def specialise_new_params(tree, ref):
     return tree
 
 
+def _scalar_const(e):
+    """Arithmetic over number literals and numpy's scalar constants
+    (`np.nan + 1j*np.nan`, `2*np.pi`): an immutable scalar."""
+    if isinstance(e, ast.Constant):
+        return isinstance(e.value, (int, float, complex)) and not isinstance(
+            e.value, bool)
+    if isinstance(e, ast.Attribute):
+        return isinstance(e.value, ast.Name) and e.value.id in (
+            'np', 'numpy', 'math') and e.attr in ('nan', 'inf', 'pi', 'e',
+                                                  'NaN', 'Inf')
+    if isinstance(e, ast.BinOp):
+        return isinstance(e.op, (ast.Add, ast.Sub, ast.Mult, ast.Div,
+                                 ast.Pow)) and _scalar_const(
+            e.left) and _scalar_const(e.right)
+    if isinstance(e, ast.UnaryOp):
+        return isinstance(e.op, (ast.USub, ast.UAdd)) and _scalar_const(
+            e.operand)
+    return False
+
+
 def fold_new_module_constants(tree, ref):
     """A module-level name that the reference module does not have, bound
     once to a constant (a switch such as `_DEBUG = False`), is replaced by
@@ -956,7 +976,9 @@ def fold_new_module_constants(tree, ref):
                 isinstance(st.targets[0], ast.Name):
             nm = st.targets[0].id
             count[nm] = count.get(nm, 0) + 1
-            if isinstance(st.value, ast.Constant) or (
+            if _scalar_const(st.value):
+                consts[nm] = st.value
+            elif isinstance(st.value, ast.Constant) or (
                     isinstance(st.value, (ast.Tuple, ast.List, ast.Set,
                                           ast.Dict)) and all(
                         isinstance(x, (ast.Constant, ast.Tuple, ast.List,
